@@ -224,3 +224,8 @@ func jstr(v any) string {
 	bs, _ := json.Marshal(v)
 	return string(bs)
 }
+
+func jsonRoundTrip(v any, out *any) {
+	bs, _ := json.Marshal(v)
+	json.Unmarshal(bs, out)
+}
